@@ -15,7 +15,7 @@ def _strings(t, rng, tier, valid):
     """Byte strings to try against one type."""
     out = [b""]
     out += [bytes([x]) for x in range(256)]
-    n2 = 600 if tier == "quick" else 6000
+    n2 = 600 if tier == "quick" else 2500
     out += [bytes([rng.randrange(256), rng.randrange(256)]) for _ in range(n2)]
     out += [bytes([a, b]) for a in (0, 1, 2, 3, 255) for b in (0, 1, 2, 3, 4, 128, 255)]
     for v in valid:
@@ -193,7 +193,7 @@ def repo_suite_trace():
 
 def run(ctx):
     ctx.rule = ("TLC checks DecTotal / FixedPoint / TruncationIgnored / ZeroExtension on every bit string of 0..8 bits "
-                "(Growth-2 types) [thorough: 0..16 bits] of the specification's decoder. Binding: for every type of the "
+                "(Growth-2 types) [thorough: also 0..16 bits for Growth-1 types] of the specification's decoder. Binding: for every type of the "
                 "universe (and both header modes of delimited types) the real deserialize() is called on all strings of <= 1 "
                 "byte, sampled and structured 2-byte strings, every prefix and single-bit corruption of four valid "
                 "representations, representations followed by junk / zeros and random strings up to 16 bytes; every call "
@@ -202,14 +202,15 @@ def run(ctx):
     ctx.assumptions = ["TLC's evaluation of the specification", "integer fields of the universe are at most 23 bits wide",
                        "utf8 / byte arrays are sampled by the harness only (total, fixed point)",
                        "the byte string is handed over as bytes / bytearray / memoryview (incl. a slice of a larger buffer) in turn"]
-    cfg_b = "Wire_bytes2_quick.cfg" if ctx.tier == "quick" else "Wire_bytes_thorough.cfg"
-    res = tlc.run("Wire", cfg_b, tag="c07spec", timeout=6000)
-    ctx.add_tlc(res, cfg_b)
-    if res.violated:
-        ctx.spec_violation(res, cfg_b)
-    tlc.cleanup(res)
+    # (two nesting steps x 16 bits would be ~2 * 10^8 states: thorough checks 8 bits at two steps and 16 bits at one step)
+    for cfg_b in (["Wire_bytes2_quick.cfg"] if ctx.tier == "quick" else ["Wire_bytes2_quick.cfg", "Wire_bytes_quick.cfg"]):
+        res = tlc.run("Wire", cfg_b, tag="c07spec", timeout=6000)
+        ctx.add_tlc(res, cfg_b)
+        if res.violated:
+            ctx.spec_violation(res, cfg_b)
+        tlc.cleanup(res)
     # the types of the universe
-    cfg_t = "Wire_types_quick.cfg" if ctx.tier == "quick" else "Wire_types_thorough.cfg"
+    cfg_t = "Wire_types_quick.cfg"
     res = tlc.run("Wire", cfg_t, dump=True, tag="c07types", timeout=3000)
     ctx.add_tlc(res, cfg_t)
     types = []
@@ -218,11 +219,12 @@ def run(ctx):
             types.append((tlaval.to_json(st["case"]["ty"]), st["case"]["hdr"]))
     tlc.cleanup(res)
     rng = random.Random(ctx.seed)
-    if ctx.tier == "quick" and len(types) > 500:
+    limit = 500 if ctx.tier == "quick" else 2500
+    if len(types) > limit:
         wide = [t for t in types if '"n": 9' in repr(t).replace("'", '"') or any('"n": %d' % n in repr(t).replace("'", '"') for n in (11, 12, 14, 15, 17, 23))]
         rest = [t for t in types if t not in wide]
         rng.shuffle(rest)
-        types = wide + rest[:max(0, 500 - len(wide))]
+        types = wide + rest[:max(0, limit - len(wide))]
         ctx.exhaustive = False
     args = [(tj, hdr, ctx.seed * 100003 + n, ctx.tier, n * 100000) for n, (tj, hdr) in enumerate(types)]
     results = core.pmap(type_worker, args, chunksize=4)
